@@ -290,6 +290,18 @@ pub fn run(run: &mut Run) -> &'static str {
         Ok(())
     });
     run.part_extra("distinct_identities_in_map", json!(maps.identities()));
+    let cases = run.tier.pick(320, 6_000);
+    run.proptest_part("long_histories", RULE, hist_case(4..120), cases, |case: &HistCase, st: &mut Stats| {
+        let mut obs = Obs { maps: maps_ref, path: 0, recurrences: 0 };
+        if let Some((feat, root, ops)) = interpret(case, &Config::long(), st, &mut obs)? {
+            if feat.max_depth >= 1025 {
+                st.class("max_nesting_depth_reached_1025_or_more");
+                st.nontrivial(&(root.clone(), ops.len(), crate::framework::hash_of(&ops)));
+                st.nontrivial_sample(json!({"root": root, "ops": ops.len(), "max_depth": feat.max_depth}));
+            }
+        }
+        Ok(())
+    });
 
     // ---- transpositions: two orders of two independent moves reach one identity, hence one key
     // (covered by the run-wide map above); twins: directed near-misses must differ in key
